@@ -1164,7 +1164,7 @@ def run(tier, seed):
         render_cells += 1
         raw.extend(res["violations"])
     verbose_large = 0
-    for res in parallel_map(_verbose_large_job, [(seed, i) for i in range(cfg.get("verbose_large", 10))]):
+    for res in parallel_map(_verbose_large_job, [(seed, i) for i in range(cfg.get("verbose_large", 36))]):
         runs += 2
         verbose_large += 1
         raw.extend(res["violations"])
